@@ -90,8 +90,39 @@ def caps_replies():
     return out
 
 
-def all_replies(full=True):
-    return status_replies(full) + list_replies(full) + get_replies() + caps_replies()
+HOSTILE = ["OK", "NO", "BYE", "{5}", "{2+}", "ACTIVE", '"', "\\", " ", "\r\n", "\n", "\r", "é", "☃", "\u2028", "\x0c", "\x0b", "\u0085",
+           "\x1d", "a", "b", "keep;", "#", "(", ")", "text:", ".", "\t", "0"]
+
+
+def random_replies(seed, n):
+    """seeded replies drawn from the same grammar with contents over a hostile vocabulary (short enough for TLC)"""
+    import random
+    rng = random.Random(seed * 31 + 7)
+    out = []
+    for k in range(n):
+        kind = k % 3
+        if kind == 0:      # getscript body
+            body = "".join(rng.choice(HOSTILE) for _ in range(rng.randrange(1, 9)))
+            out.append(reply(lines=[[item("l", body)]], fam="get", tag="rbody:%r" % body))
+        elif kind == 1:    # listing with names free of the characters the client is known not to decode (F06-F08)
+            names = []
+            for _ in range(rng.randrange(1, 4)):
+                nm = "".join(rng.choice([h for h in HOSTILE if h not in ('"', "\\", "\r\n", "\n", "\r", "{5}", "{2+}")]) for _ in range(rng.randrange(1, 4)))
+                if nm not in names and nm.strip() == nm and nm:
+                    names.append(nm)
+            act = rng.randrange(len(names) + 1)
+            lines = [[item("q", nm)] + ([item("a", "ACTIVE")] if i + 1 == act else []) for i, nm in enumerate(names)]
+            if lines:
+                out.append(reply(lines=lines, fam="list", tag="rlist:%r" % names))
+        else:              # NO / OK with a quoted text free of quote and backslash (F04) but otherwise hostile
+            text = "".join(rng.choice([h for h in HOSTILE if h not in ('"', "\\", "\r\n", "\n", "\r")]) for _ in range(rng.randrange(1, 7)))
+            code = rng.choice(["", "QUOTA/MAXSIZE", "NONEXISTENT", "WARNINGS"])
+            out.append(reply(st=rng.choice(["NO", "NO", "OK"]), code=code, text=item("q", text), fam="status", tag="rtext:%r" % text))
+    return out
+
+
+def all_replies(full=True, seed=0):
+    return status_replies(full) + list_replies(full) + get_replies() + caps_replies() + random_replies(seed, 60 if not full else 300)
 
 
 def to_tla(r):
